@@ -31,6 +31,19 @@ func (l *closeLoop) head() token.Pos { return l.stmt.Pos() }
 // with a Close() error method (Disposable).
 func isCloseCall(info *types.Info, c *ast.CallExpr) (recv ast.Expr, kind string, ok bool) {
 	cal := callee(info, c)
+	// x.closeWith(rec): the method Close itself delegates to (shared with a second entry) closes like Close
+	if cal != nil && cal.Name() != "Close" && theWorld != nil {
+		if h := theWorld.Decls[cal]; h != nil && recvNamed(cal) != nil {
+			owner := recvNamed(cal).Obj().Name()
+			if owner == "scope" || owner == "provider" {
+				if cf := theWorld.byName[theWorld.Godi.PkgPath+".(*"+owner+").Close"]; cf != nil && closeDelegate(theWorld, cf) == h {
+					if r, _, isM := methodCall(c); isM {
+						return r, owner, true
+					}
+				}
+			}
+		}
+	}
 	if cal == nil || cal.Name() != "Close" {
 		return nil, "", false
 	}
